@@ -7,7 +7,7 @@
 // are H0, H1 and H2 (Z/2Z Betti numbers 1,1,1 - checked below by an independent brute-force Z/2 reduction); the utility
 // prints the Z/3Z answer (Betti 1,0,0).
 //
-// Build: g++ -std=gnu++17 -O1 -g -fsanitize=address,undefined $(ls -d /tmp/seed/P12/src/*/include | sed 's/^/-I/') \
+// Build: g++ -std=gnu++17 -O1 -g -fsanitize=address,undefined $(ls -d /repo/src/*/include | sed 's/^/-I/') \
 //            defect_4.cpp -o defect_4 -lboost_program_options -ltbb && ./defect_4
 //
 // Cause: src/Collapse/utilities/distance_matrix_edge_collapse_rips_persistence.cpp l.89 `pcoh.init_coefficients(3);`
@@ -16,7 +16,7 @@
 // a distance matrix as input", example "... -r 15 -d 3 -p 3 -m 0").
 
 #define main utility_main
-#include "/tmp/seed/P12/src/Collapse/utilities/distance_matrix_edge_collapse_rips_persistence.cpp"
+#include "/repo/src/Collapse/utilities/distance_matrix_edge_collapse_rips_persistence.cpp"
 #undef main
 
 #include <algorithm>
